@@ -6,6 +6,7 @@ import (
 	"os"
 	"strconv"
 	"strings"
+	"syscall"
 )
 
 // sfharness gen <kind> <seed> <count>   -> one line per case: kind \t input \t impl observation
@@ -38,9 +39,23 @@ func main() {
 			fmt.Fprintln(os.Stderr, "unknown kind", kind)
 			os.Exit(2)
 		}
-		for i := 0; i < count; i++ {
+		start := 0
+		if len(os.Args) > 5 {
+			start, _ = strconv.Atoi(os.Args[5])
+		}
+		for i := start; i < count; i++ {
 			r := newRng(seed*1000003 + uint64(i))
-			fmt.Fprintln(out, k.gen(r))
+			line := k.gen(r)
+			fmt.Fprintln(out, line)
+			if hungGoroutines > 0 {
+				// a goroutine of the implementation is spinning: continue in a fresh process image
+				out.Flush()
+				args := []string{os.Args[0], "gen", kind, os.Args[3], os.Args[4], strconv.Itoa(i + 1)}
+				if err := syscall.Exec(os.Args[0], args, os.Environ()); err != nil {
+					fmt.Fprintln(os.Stderr, "re-exec failed:", err)
+					os.Exit(3)
+				}
+			}
 		}
 	case "replay":
 		sc := bufio.NewScanner(os.Stdin)
